@@ -325,3 +325,119 @@ HARNESSES = [
     _h("c16_envelope", h_envelope, "TirEnvelope content of 0..4 printable characters x {hex, base64} x {v1beta0, v1alpha8, other}; wire decoder uninterpreted"),
     _h("c16_request", h_request, "2 declared parameters (Int, Bool) + a differently-cased and an undeclared key; presence of each key in args and in env symbolic; env present/absent"),
 ]
+
+
+# ---- addresses, bytes envelopes, every value kind x every target type ----------------------------
+
+def h_address(ctx, tier, seed):
+    """an address given as hex (with / without 0x, both digit cases, 0..3 bytes) is the bytes the
+    text encodes; given as bech32 it is the payload the bech32 decoder returns"""
+    eng = ctx.eng
+    n = eng.choose(4, "byte count")
+    prefix = eng.choose(2, "0x prefix") == 1
+    upper = eng.choose(2, "hex digit case") == 1
+    bs = [ctx.sym_int("b%d" % i, "u8") for i in range(n)]
+    chars = [48, 120] if prefix else []
+    for b in bs:
+        chars += [hexchar(z3.Extract(7, 4, b), upper), hexchar(z3.Extract(3, 0, b), upper)]
+    r = call_from_json(ctx, jstr(eng, chars), "Address")
+    if r is None:
+        return
+    ctx.require(r.variant == "Ok", "an address in hex (or whatever the bech32 decoder accepts) is accepted", shape="hex address rejected")
+    if r.variant != "Ok":
+        return
+    a = models.deref(r.fields[0])
+    ctx.require(a.variant == "Address", "an Address argument is produced", shape="address coerced to another argument kind")
+    got = models.deref(a.fields[0])
+    if isinstance(got, Opaque):
+        ctx.require(got.fn == "bech32_bytes", "the bech32 payload is handed over unchanged")
+        return
+    got = got.items
+    ctx.require(len(got) == n, "byte count preserved", shape="hex address decoded to another length")
+    if len(got) == n and n:
+        ctx.require(z3.And(*[eng.to_bv(g, 8) == b for g, b in zip(got, bs)]), "hex decodes to the bytes it encodes", shape="hex address decoded wrongly")
+
+
+def _envelope_model(ctx, cs, enc):
+    """serde_json::from_value::<BytesEnvelope>: derive-generated; contract = Ok(envelope) | Err"""
+    eng = ctx.eng
+
+    def m(eng_, a, c=None):
+        if eng_.choose(2, "the JSON object is a BytesEnvelope") == 1:
+            return err(Opaque("serde_json_error"))
+        q, d = eng_.tdef("BytesEnvelope", "struct")
+        vals = dict(content=StrM(list(cs), True), content_type=eng_.mk_variant("BytesEncoding", enc, [], "interop"))
+        return ok(Agg(q, None, 0, [vals[f] for f in d[2]]))
+    return m
+
+
+def h_bytes_envelope(ctx, tier, seed):
+    """bytes given as a {content, encoding} object: hex content of 0..2 bytes decodes exactly,
+    ill-formed content of 0..4 printable characters is an error, never a panic"""
+    eng = ctx.eng
+    enc = ["Hex", "Base64"][eng.choose(2, "encoding")]
+    wellformed = eng.choose(2, "well-formed hex content") == 1 and enc == "Hex"
+    if wellformed:
+        n = eng.choose(3, "byte count")
+        bs = [ctx.sym_int("b%d" % i, "u8") for i in range(n)]
+        cs = []
+        for b in bs:
+            cs += [hexchar(z3.Extract(7, 4, b), False), hexchar(z3.Extract(3, 0, b), False)]
+    else:
+        n = eng.choose(5, "content length")
+        cs = [ctx.sym_int("c%d" % i, "u8") for i in range(n)]
+        for c in cs:
+            printable(eng, c)
+    eng.models["from_value"] = _envelope_model(ctx, cs, enc)
+    obj = eng.mk_variant("Value", "Object", [Opaque("json_object")])
+    r = call_from_json(ctx, obj, "Bytes")
+    if r is None:
+        return
+    ctx.require(True, "from_json returns")
+    if wellformed and r.variant == "Ok":
+        got = models.deref(models.deref(r.fields[0]).fields[0]).items
+        ctx.require(len(got) == n and (n == 0 or z3.And(*[eng.to_bv(g, 8) == b for g, b in zip(got, bs)])), "the envelope's hex content decodes to the bytes it encodes", shape="envelope bytes decoded wrongly")
+    if r.variant == "Ok" and enc == "Hex" and not wellformed:
+        import models_str as S
+        hexd = lambda c: S.is_hex(eng, c)
+        bare = z3.And(n % 2 == 0, *[hexd(c) for c in cs]) if n else z3.BoolVal(True)
+        pref = z3.And(n % 2 == 0, cs[0] == 48, cs[1] == 120, *[hexd(c) for c in cs[2:]]) if n >= 2 else z3.BoolVal(False)
+        ctx.require(z3.Or(bare, pref), "envelope content accepted as hex is hex", shape="ill-formed envelope content accepted")
+
+
+def h_kinds(ctx, tier, seed):
+    """every JSON value kind x every target type: Ok or Err; Ok only for a documented pairing"""
+    eng = ctx.eng
+    num = ctx.sym_int("num", "i128")
+    eng.assume(z3.And(num >= -(1 << 63), num < (1 << 64)))
+    b = ctx.sym_bool("b")
+    kinds = [("null", eng.mk_variant("Value", "Null", [])), ("bool", eng.mk_variant("Value", "Bool", [b])), ("number", jnum(eng, num)),
+             ("array", eng.mk_variant("Value", "Array", [VecM([])])), ("string", jstr(eng, list(b"00")))]
+    targets = ["Undefined", "Unit", "Int", "Bool", "Bytes", "Address", "Utxo", "UtxoRef", "AnyAsset", "List", "Map"]
+    k = eng.choose(len(kinds), "value kind")
+    t = targets[eng.choose(len(targets), "target type")]
+    r = call_from_json(ctx, kinds[k][1], t)
+    if r is None:
+        return
+    kind = kinds[k][0]
+    allowed = {("bool", "Undefined"), ("number", "Undefined"), ("string", "Undefined"), ("number", "Int"), ("string", "Int"), ("bool", "Bool"),
+               ("number", "Bool"), ("string", "Bytes"), ("string", "Address")}
+    if r.variant == "Ok":
+        ctx.require((kind, t) in allowed, "a %s is accepted for target type %s only where documented" % (kind, t), shape="%s accepted as %s" % (kind, t))
+        a = models.deref(r.fields[0])
+        if (kind, t) == ("number", "Bool"):
+            ctx.require(z3.Or(num == 0, num == 1), "only 0 and 1 are booleans", shape="number other than 0/1 accepted as bool")
+            ctx.require(z3b(a.fields[0]) == (num == 1), "0 is false and 1 is true", shape="0/1 mapped to the wrong boolean")
+        if (kind, t) in (("number", "Int"), ("number", "Undefined")):
+            ctx.require(z3.And(a.variant == "Int", eng.to_bv(a.fields[0], 128) == num), "a JSON integer is the Int it denotes", shape="JSON number coerced to another integer")
+        if (kind, t) == ("bool", "Bool") or (kind, t) == ("bool", "Undefined"):
+            ctx.require(z3.And(a.variant == "Bool", z3b(a.fields[0]) == b), "a JSON boolean is itself", shape="JSON boolean flipped")
+    else:
+        ctx.require((kind, t) not in (allowed - {("number", "Bool")}), "a documented pairing (%s as %s) is accepted" % (kind, t), shape="%s rejected as %s" % (kind, t))
+
+
+HARNESSES += [
+    _h("c16_address", h_address, "address as hex of 0..3 symbolic bytes (bare / 0x, both cases); bech32 decoder uninterpreted"),
+    _h("c16_bytes_envelope", h_bytes_envelope, "{content, encoding} object: hex content of 0..2 symbolic bytes; any content of 0..4 printable characters x {hex, base64}; serde derive = Ok(envelope)|Err"),
+    _h("c16_value_kinds", h_kinds, "JSON kinds {null, bool, number in [i64::MIN, u64::MAX], array, string} x 11 target types"),
+]
